@@ -349,9 +349,16 @@ def _r3(repo, L):
         for s in stmts:
             if isinstance(s, ast.Assign) and isinstance(s.value, ast.BinOp) and isinstance(s.value.op, ast.Sub) and isinstance(s.targets[0], ast.Name):
                 snap[s.targets[0].id] = (t_of(s.value.left), t_of(s.value.right), s)
-            if isinstance(s, ast.Assign) and any(isinstance(t, ast.Attribute) and is_name(t.value, "self") and t.attr in ("breaks", "joins") for t in s.targets):
-                tgt = [t.attr for t in s.targets if isinstance(t, ast.Attribute)][0]
-                v = s.value
+            pairs_ = []
+            if isinstance(s, ast.Assign):
+                for t in s.targets:
+                    if isinstance(t, ast.Attribute) and is_name(t.value, "self") and t.attr in ("breaks", "joins"):
+                        pairs_.append((t.attr, s.value))
+                    elif isinstance(t, ast.Tuple) and isinstance(s.value, ast.Tuple) and len(t.elts) == len(s.value.elts):
+                        for te, ve in zip(t.elts, s.value.elts):
+                            if isinstance(te, ast.Attribute) and is_name(te.value, "self") and te.attr in ("breaks", "joins"):
+                                pairs_.append((te.attr, ve))
+            for tgt, v in pairs_:
                 if isinstance(v, ast.Call) and dotted(v.func) == "len" and v.args:
                     e = v.args[0]
                     if isinstance(e, ast.Name) and e.id in snap:
@@ -376,7 +383,7 @@ def _r3(repo, L):
     visit_rec(ms.node.body)
     for what, (lw, rw) in (("breaks", ({"IN"}, {"OUT"})), ("joins", ({"OUT"}, {"IN"}))):
         if what not in results:
-            L.fail("R3", f"{ms.short}:{what}", f"self.{what} is not assigned from a set difference", ms.loc())
+            raise AnalysisError(f"{ms.short}: how self.{what} is assigned is not a form understood (len of a set difference, directly or through a local)")
             continue
         lt, rt, node = results[what]
         L.check(lt == lw and rt == rw, "R3", f"{ms.short}:{what}", f"len({'input − output' if what == 'breaks' else 'output − input'})", f"{what} is computed as len(<{sorted(lt) if lt else lt}> − <{sorted(rt) if rt else rt}>), expected {'input − output' if what == 'breaks' else 'output − input'}", ms.loc(node))
